@@ -23,7 +23,7 @@ fn guard(w: &World, st: &Step) -> Result<(), Violation> {
 }
 
 /// single-field edit of a recorded datagram
-fn edit(rng: &mut Rng, d: &[u8], which: u32) -> (Vec<u8>, &'static str) {
+pub fn edit(rng: &mut Rng, d: &[u8], which: u32) -> (Vec<u8>, &'static str) {
     let mut v = d.to_vec();
     if let Some(lay) = refmodel::handshake_layout(d) {
         // fields: stage, node-id hash, ecdh key, cipher list, payload, signature length, signature bytes
